@@ -4,9 +4,9 @@ from . import build
 from .llsym import Ptr, NULL, SymStr, M
 
 _F = None
-# channel directory of the write-path harnesses; it contains "rf" on purpose: the writer derives names with strstr(.., "rf"), which must
-# only ever look at the basename
-CHDIR = '/data/drf/ch'
+# channel directory of the write-path harnesses; it contains "rf" and "tmp." on purpose: the writer derives names with strstr(.., "rf") /
+# strips a "tmp." prefix, which must only ever concern the basename
+CHDIR = '/data/tmp.drf/ch'
 
 
 def F():
